@@ -1,6 +1,8 @@
 package policy
 
 import (
+	"strings"
+
 	"github.com/inbucket/inbucket/v3/pkg/config"
 	vrf "github.com/inbucket/inbucket/v3/pkg/zzvrf"
 )
@@ -18,8 +20,63 @@ func vrfNaming(mode int) *Addressing {
 	return &Addressing{Config: c}
 }
 
-// VerifC04FixedPoint: for every address NewRecipient accepts, the mailbox name is non-empty, is a
-// fixed point of ExtractMailbox, and is what ExtractMailbox computes for the address itself.
+// vrfBaseIssues classifies the parsed local part (before '+ext' stripping): emptyBase = the name
+// left after removing '+ext' is empty; dotty = that name starts or ends with '.' or contains "..".
+func vrfBaseIssues(local string) (emptyBase bool, dotty bool) {
+	n := len(local)
+	for i := 0; i < len(local); i++ {
+		if local[i] == '+' {
+			n = i
+			break
+		}
+	}
+	if n == 0 {
+		return true, false
+	}
+	if local[0] == '.' {
+		dotty = true
+	}
+	if local[n-1] == '.' {
+		dotty = true
+	}
+	for i := 0; i+1 < n; i++ {
+		if local[i] == '.' {
+			if local[i+1] == '.' {
+				dotty = true
+			}
+		}
+	}
+	return false, dotty
+}
+
+func vrfHasUpper(s string) bool {
+	r := false
+	for i := 0; i < len(s); i++ {
+		if 'A' <= s[i] {
+			if s[i] <= 'Z' {
+				r = true
+			}
+		}
+	}
+	return r
+}
+
+// vrfKnownC04 declares the known findings that apply to the accepted recipient r (see
+// /verif/known_findings.json). Each predicate names the failing input class narrowly.
+func vrfKnownC04(mode int, r *Recipient) {
+	emptyBase, dotty := vrfBaseIssues(r.LocalPart)
+	if mode != 3 {
+		vrf.Known("C04-empty-base", emptyBase)
+		vrf.Known("C04-dot-name", dotty)
+	}
+	if mode != 1 {
+		vrf.Known("C04-domain-case", vrfHasUpper(r.Domain))
+	}
+}
+
+// VerifC04FixedPoint: for every address NewRecipient accepts (what RCPT TO accepts after the
+// handler's trimming), the mailbox name is non-empty, is what ExtractMailbox computes for the address
+// (the call every read interface makes through MailboxForAddress), and is a fixed point.
 func VerifC04FixedPoint(mode int, n int) {
 	addr := vrf.StringN("addr", n)
 	a := vrfNaming(mode)
@@ -28,6 +85,7 @@ func VerifC04FixedPoint(mode int, n int) {
 		return
 	}
 	vrf.Cover("accepted")
+	vrfKnownC04(mode, r)
 	vrf.Assert("nonempty", r.Mailbox != "")
 	m1, err1 := a.ExtractMailbox(addr)
 	vrf.Assert("same-as-extract-noerr", err1 == nil)
@@ -35,4 +93,85 @@ func VerifC04FixedPoint(mode int, n int) {
 	m2, err2 := a.ExtractMailbox(r.Mailbox)
 	vrf.Assert("fixedpoint-noerr", err2 == nil)
 	vrf.Assert("fixedpoint-same", m2 == r.Mailbox)
+}
+
+// VerifC04Case: two addresses that differ only in letter case are accepted alike and name the same
+// mailbox.
+func VerifC04Case(mode int, n int) {
+	a1 := vrf.StringN("a", n)
+	a2 := vrf.StringN("b", n)
+	for i := 0; i < n; i++ {
+		vrf.Assume(vrfFold(a1[i]) == vrfFold(a2[i]))
+	}
+	ad := vrfNaming(mode)
+	r1, err1 := ad.NewRecipient(a1)
+	r2, err2 := ad.NewRecipient(a2)
+	if err1 != nil {
+		// IP-literal domains: "[IPv6:..." is accepted only with that exact tag spelling, a
+		// documented syntax rule rather than a naming decision: acceptance may differ there.
+		return
+	}
+	vrf.Cover("first-accepted")
+	if err2 != nil {
+		vrf.Known("C04-ipv6-tag-case", strings.Contains(a1, "@[IPv6:"))
+		vrf.Assert("case-acceptance-agrees", false)
+		return
+	}
+	vrf.Cover("both-accepted")
+	if mode != 1 {
+		vrf.Known("C04-domain-case", r1.Domain != r2.Domain)
+	}
+	vrf.Assert("case-same-mailbox", r1.Mailbox == r2.Mailbox)
+}
+
+func vrfFold(c byte) byte {
+	if 'A' <= c {
+		if c <= 'Z' {
+			return c + 32
+		}
+	}
+	return c
+}
+
+// VerifC04PlusExt: L@D and L+E@D (no '+' and no quoting characters in L) name the same mailbox.
+func VerifC04PlusExt(mode int, nl int, ne int, nd int) {
+	l := vrf.StringN("l", nl)
+	e := vrf.StringN("e", ne)
+	d := vrf.StringN("d", nd)
+	for i := 0; i < nl; i++ {
+		vrf.Assume(l[i] != '+')
+		vrf.Assume(l[i] != '"')
+		vrf.Assume(l[i] != '\\')
+		vrf.Assume(l[i] != '@')
+	}
+	ad := vrfNaming(mode)
+	r1, err1 := ad.NewRecipient(l + "@" + d)
+	r2, err2 := ad.NewRecipient(l + "+" + e + "@" + d)
+	if err1 != nil {
+		return
+	}
+	if err2 != nil {
+		return
+	}
+	vrf.Cover("both-accepted")
+	vrf.Assert("plus-same-mailbox", r1.Mailbox == r2.Mailbox)
+}
+
+// VerifC04Rcpt: the RCPT handler's own trimming (strings.Trim(arg[3:], "<> ")) precedes
+// NewRecipient; whatever it yields, an accepted recipient has the properties above. This instance
+// starts from the raw RCPT argument.
+func VerifC04Rcpt(mode int, n int) {
+	arg := "TO:" + vrf.StringN("arg", n)
+	addr := strings.Trim(arg[3:], "<> ")
+	a := vrfNaming(mode)
+	r, err := a.NewRecipient(addr)
+	if err != nil {
+		return
+	}
+	vrf.Cover("rcpt-accepted")
+	vrfKnownC04(mode, r)
+	vrf.Assert("rcpt-nonempty", r.Mailbox != "")
+	m2, err2 := a.ExtractMailbox(r.Mailbox)
+	vrf.Assert("rcpt-fixedpoint-noerr", err2 == nil)
+	vrf.Assert("rcpt-fixedpoint-same", m2 == r.Mailbox)
 }
